@@ -47,8 +47,21 @@ func main() {
 			} else {
 				scs = consnet.Product(cfgs, full, d)
 			}
-			return scs, "every compatible subset of <= d deviation rules (quick: all single rules naming rounds 0-1 and all pairs of round-0 rules; thorough: all subsets of size <= 3 of the full menu, budget-capped) (hold/mute/early-timeout/Byzantine silent, equivocating proposal, fresh proposal, split votes, future-round votes) over 4 real ConsensusState machines (one Byzantine, honest by default), each execution run to 2 committed heights under the fair default schedule; distinct = distinct (committed block per node and height, max round) outcomes",
-				map[string]interface{}{"deviation_bound": d, "validators": 4, "heights": 2, "rounds_named_by_rules": []int{0, 1}}
+			// delay-bounded scheduling: every single (thorough: also pairs of) non-default choice at
+			// every scheduling decision of three base executions
+			devBases := []consnet.Scenario{
+				{Powers: []int64{1, 1, 1, 1}, Byz: -1, Heights: 2},
+				{Powers: []int64{1, 1, 1, 1}, Byz: 0, Heights: 2, Rules: []consnet.Rule{{Kind: "byz-silent", Msg: "proposal", Round: 0}}},
+				{Powers: []int64{1, 1, 1, 1}, Byz: -1, Heights: 2, Rules: []consnet.Rule{{Kind: "hold", Node: 1, Msg: "proposal", Round: 0}, {Kind: "hold", Node: 3, Msg: "prevote", Round: 0}}},
+			}
+			if run.Quick() {
+				devBases = devBases[:1]
+			}
+			devs, devInfo := consnet.DeviationScenarios(devBases, run.Pick(1, 2), run.WorkDir()+"/devref", 20000)
+			scs = append(scs, devs...)
+			bounds := map[string]interface{}{"deviation_bound": d, "validators": 4, "heights": 2, "rounds_named_by_rules": []int{0, 1}, "delay_bounded_schedules": len(devs), "delay_bounded_info": devInfo}
+			return scs, "delay-bounded scheduling (every non-default input choice - other pending delivery, early/deferred delivery, any armed timeout, skipped turn - at every scheduling decision of the base executions; thorough: pairs) plus every compatible subset of <= d deviation rules (quick: all single rules naming rounds 0-1 and all pairs of round-0 rules; thorough: all subsets of size <= 3 of the full menu, budget-capped) (hold/mute/early-timeout/Byzantine silent, equivocating proposal, fresh proposal, split votes, future-round votes) over 4 real ConsensusState machines (one Byzantine, honest by default), each execution run to 2 committed heights under the fair default schedule; distinct = distinct (committed block per node and height, max round) outcomes",
+				bounds
 		},
 		Budget: func(run *core.Run) time.Duration {
 			if run.Quick() {
